@@ -260,7 +260,7 @@ func (r *vRand) Intn(n int) int {
 }
 
 // ---- race-detector stress: workers + duplicates + sweeper + connection handler (+ configuration reload)
-func vraceRun(t *testing.T, withReload bool) {
+func vraceRun(t *testing.T, withReload bool, churn bool) {
 	os.Setenv("PHANTOM_SUBNET_LOCATION", vingSubnetFile(t))
 	rm := NewRegistrationManager(&RegConfig{EnableIPv4: true, EnableIPv6: true, IngestWorkerCount: 20})
 	rm.Logger = log.New(io.Discard, "", 0)
@@ -283,16 +283,22 @@ func vraceRun(t *testing.T, withReload bool) {
 	stop := time.Now().Add(dur)
 	var aux sync.WaitGroup
 	aux.Add(3)
-	go func() { // producer: few secrets => many duplicates
+	go func() { // producer: few secrets => many duplicates; churn: mostly fresh secrets => validations and expiries at a high rate
 		defer aux.Done()
 		r := newVRand(vSeed())
+		fresh := 12
 		for time.Now().Before(stop) {
 			src := pb.RegistrationSource_API
 			if r.Intn(2) == 0 {
 				src = pb.RegistrationSource_Detector
 			}
+			id := r.Intn(12)
+			if churn && r.Intn(4) != 0 {
+				fresh++
+				id = fresh
+			}
 			select {
-			case regChan <- vpipMsg(r.Intn(12), src):
+			case regChan <- vpipMsg(id, src):
 			default:
 			}
 			if r.Intn(8) == 0 {
@@ -353,8 +359,12 @@ func vraceRun(t *testing.T, withReload bool) {
 	}
 }
 
-func TestVerifIngestRaceNoReload(t *testing.T) { vraceRun(t, false) }
-func TestVerifIngestRaceReload(t *testing.T)   { vraceRun(t, true) }
+func TestVerifIngestRaceNoReload(t *testing.T) { vraceRun(t, false, false) }
+func TestVerifIngestRaceReload(t *testing.T)   { vraceRun(t, true, false) }
+
+// churn: a stream of fresh registrations, so that validations (statistics updates after the registry lock was released) and
+// the sweep's removal of VALID registrations (statistics updates under the registry lock) run against each other all the time
+func TestVerifIngestRaceChurn(t *testing.T) { vraceRun(t, false, true) }
 
 // ---- connection vs sweep under real concurrency (no gates): a linearizability oracle at quiescence.
 // Every registration is valid, unused and 11 minutes old when one sweep and several connection handlers start together.
